@@ -19,6 +19,22 @@ CHECKS = {
          "Generated-input search in two build profiles (debug assertions on and off): (a) accepted => no duplicated member (arbitrary + near-miss entries), (b) each of 15 defect kinds injected singly/combined at generated positions => Validation and zero bytes, (c) valid entries accepted and byte-identical (multiset of lines) to the unvalidated twin configuration.",
          "Trusts the defect injector (each injection is one of the property's listed defects by construction) and vh::json.",
          "DESIGN.md §2 C08"),
+ "C12": ("proptest + exhaustive f32 sweep; scripted RNG; exact u128 arithmetic oracle; bisection for the weight distribution; stateful interval histories for the congressional sampler",
+         "Generated-input search with exact oracles: decision (emit iff draw <= rate, rate passed on) for fixed-fraction and congressional samplers with the draw derived from scripted rng words; EMF weight for every f32 rate (thorough: all 1.07e9; quick: strided) against floor/ceil computed in u128, unbiasedness by bisection over the 53-bit draw; congressional invariants (range, =1 under target, budget, monotonicity) after every interval of generated histories.",
+         "Trusts rand's documented f32/f64 conversion (used identically on both sides), hook H4 to end intervals, u128 arithmetic; tolerances: 1e-12 relative for the expectation, 1e-3 / 1e-5 for the f32 congressional budget / monotonicity.",
+         "DESIGN.md §2 C12"),
+ "C14": ("proptest sequences; differential long-lived vs freshly built formatter at every position",
+         "Generated sequences of accepted / rejected / split / sampled / multi-megabyte / I/O-failed entries over one long-lived formatter (plain, cloned mid-way, SampledEmf) compared position by position with a fresh formatter of the same configuration: same decision, same multiset of lines.",
+         "Trusts the fresh formatter as reference (differential), line-multiset comparison, scripted writers.",
+         "DESIGN.md §2 C14"),
+ "C15": ("proptest: wrapper compositions vs documented transform of the recorded call log (RecLog); sample groups compared",
+         "Generated-input search against a reference transform: arbitrary entries under 1-4 dynamically chosen entry wrappers (15 kinds), 0-3 statically nested value wrappers (10 kinds), and stream/format-level wrappers; the recorded call sequence and sample group must equal the documented transform of the plain entry's.",
+         "Trusts RecLog (records every call in order) and the 20-line transform model; stacks that the library documents as panicking (flags of different families) are not generated.",
+         "DESIGN.md §2 C15"),
+ "C16": ("proptest fault scripts + exhaustive k / fault-position enumeration; reference lines from a perfect writer",
+         "Fault injection by generated writer scripts (accept k bytes of a vectored write for every k, Interrupted / Ok(0) / hard error at every call index, flush errors) on all record shapes; bytes received must be exactly the reference lines (or complete lines + a prefix on a hard error); sink level: every later entry reaches every (tee'd) stream exactly once, no panic.",
+         "Trusts the scripted writer/stream (harness-owned), reference = same entry through a fresh formatter and a perfect writer. The BackgroundQueue half of the sink clause is decided under C01/C05.",
+         "DESIGN.md §2 C16"),
 }
 
 BUILT = set(CHECKS)
